@@ -28,6 +28,7 @@ type HarnessCfg struct {
 	Preempt          int    `json:"preempt"`
 	SelectAll        bool   `json:"select_all"`
 	BlockChoice      bool   `json:"block_choice"` // Mode B: also explore every choice at blocking points
+	SortContract     bool   `json:"sort_contract"` // sort.Sort may return ANY permutation consistent with Less (its documented contract)
 	MapOrder         string `json:"map_order"`
 	Race             bool   `json:"race"`
 	TimeoutMs        int    `json:"timeout_ms"`
@@ -451,14 +452,37 @@ func (in *Interp) hardArith(t *Term) bool {
 }
 
 func (in *Interp) feasible(c *Term) bool {
+	ok, _ := in.feasibleM(c)
+	return ok
+}
+
+// feasibleM decides pc ∧ c and returns the satisfying assignment when there is one.
+func (in *Interp) feasibleM(c *Term) (bool, map[string]uint64) {
 	if c.IsConst() {
-		return c.BoolVal()
+		return c.BoolVal(), nil
 	}
-	v, _, _ := in.check(c, false)
+	v, m, _ := in.check(c, true)
 	if v == Unknown {
 		in.unknowns++
+		return true, nil
 	}
-	return v != Unsat
+	return v != Unsat, m
+}
+
+// holds evaluates a condition under the cached model of the current path condition
+// (0 = false, 1 = true, -1 = no model).
+func (in *Interp) holds(c *Term) int {
+	if in.model == nil {
+		return -1
+	}
+	r := in.tt.Eval(c, in.model, map[int]*Term{})
+	if !r.IsConst() {
+		return -1
+	}
+	if r.BoolVal() {
+		return 1
+	}
+	return 0
 }
 
 func (in *Interp) pushAlt(choice int) {
@@ -487,7 +511,8 @@ func (in *Interp) decideFree(n int) int {
 	return 0
 }
 
-// branch decides a boolean condition, forking when both sides are feasible.
+// branch decides a boolean condition, forking when both sides are feasible. The
+// model of the last satisfiable query is kept: the side it takes needs no query.
 func (in *Interp) branch(c *Term) bool {
 	if c.IsConst() {
 		return c.BoolVal()
@@ -497,12 +522,26 @@ func (in *Interp) branch(c *Term) bool {
 	var choice int
 	if d < len(in.prefix) {
 		choice = in.prefix[d]
+		if h := in.holds(c); h >= 0 && h != choice {
+			in.model = nil
+		}
 	} else {
 		nc := in.tt.Not(c)
-		tSat := in.feasible(c)
-		fSat := true
-		if tSat {
-			fSat = in.feasible(nc)
+		var tSat, fSat bool
+		var tM, fM map[string]uint64
+		switch in.holds(c) {
+		case 1:
+			tSat, tM = true, in.model
+			fSat, fM = in.feasibleM(nc)
+		case 0:
+			fSat, fM = true, in.model
+			tSat, tM = in.feasibleM(c)
+		default:
+			tSat, tM = in.feasibleM(c)
+			fSat = true
+			if tSat {
+				fSat, fM = in.feasibleM(nc)
+			}
 		}
 		switch {
 		case tSat && fSat:
@@ -513,6 +552,11 @@ func (in *Interp) branch(c *Term) bool {
 			choice = 1
 		default:
 			choice = 0
+		}
+		if choice == 1 {
+			in.model = tM
+		} else {
+			in.model = fM
 		}
 	}
 	in.trace = append(in.trace, choice)
@@ -531,15 +575,25 @@ func (in *Interp) choose(conds []*Term) int {
 	var choice int
 	if d < len(in.prefix) {
 		choice = in.prefix[d]
+		if in.holds(conds[choice]) != 1 {
+			in.model = nil
+		}
 	} else {
 		choice = -1
 		var feas []int
+		models := map[int]map[string]uint64{}
 		for i, c := range conds {
 			if c.IsConst() && !c.BoolVal() {
 				continue
 			}
-			if in.feasible(c) {
+			if in.holds(c) == 1 {
 				feas = append(feas, i)
+				models[i] = in.model
+				continue
+			}
+			if ok, m := in.feasibleM(c); ok {
+				feas = append(feas, i)
+				models[i] = m
 			}
 		}
 		if len(feas) == 0 {
@@ -550,6 +604,7 @@ func (in *Interp) choose(conds []*Term) int {
 			in.pushAlt(feas[k])
 			in.noteFork()
 		}
+		in.model = models[choice]
 	}
 	in.trace = append(in.trace, choice)
 	in.pc = append(in.pc, conds[choice])
@@ -569,10 +624,17 @@ func (in *Interp) assume(c *Term) {
 	if d < len(in.prefix) {
 		in.trace = append(in.trace, 1)
 		in.pc = append(in.pc, c)
+		if in.holds(c) != 1 {
+			in.model = nil
+		}
 		return
 	}
-	if !in.feasible(c) {
-		panic(pathEnd{kind: "assume", msg: "assumption infeasible"})
+	if in.holds(c) != 1 {
+		ok, m := in.feasibleM(c)
+		if !ok {
+			panic(pathEnd{kind: "assume", msg: "assumption infeasible"})
+		}
+		in.model = m
 	}
 	in.trace = append(in.trace, 1)
 	in.pc = append(in.pc, c)
@@ -620,9 +682,14 @@ func (in *Interp) assertProp(c *Term, label string) {
 		panic(pathEnd{kind: "assertfail", msg: label})
 	}
 	in.pc = append(in.pc, c)
+	in.model = nil
 	if d >= len(in.prefix) {
-		if v, _, _ := in.check(nil, false); v == Unsat {
+		v, m, _ := in.check(nil, true)
+		if v == Unsat {
 			panic(pathEnd{kind: "assertfail", msg: label})
+		}
+		if v == Sat {
+			in.model = m
 		}
 	}
 }
